@@ -742,3 +742,143 @@ pub fn c14_programs(rng: &mut Rng, scale: usize) -> Vec<(Program, Layout)> {
             progs.extend(extra);
             progs
 }
+
+// ---------------------------------------------------------------------------------------------
+// C15: any text is answered with a result or a diagnostic
+// ---------------------------------------------------------------------------------------------
+const SPECIAL: [&[u8]; 24] = [b"\"", b"[", b"]", b"(", b")", b"{", b"}", b";", b"\n", b"\r\n", b"\t", b"\0", b"\xff", b"\xc3\xa9", b"\xe2\x82\xac", b"->", b"<-", b":", b",", b"-", b"0x", b"0b", b"99999999999999999999", b"\x80"];
+
+pub fn mutate_bytes(src: &[u8], rng: &mut Rng) -> Vec<u8> {
+    let mut v = src.to_vec();
+    let n = 1 + rng.below(3) as usize;
+    for _ in 0..n {
+        let pos = if v.is_empty() { 0 } else { rng.below(v.len() as u64 + 1) as usize };
+        match rng.below(8) {
+            0 if !v.is_empty() => { let p = pos.min(v.len() - 1); v.remove(p); }
+            1 => { let s = SPECIAL[rng.below(SPECIAL.len() as u64) as usize]; for (k, b) in s.iter().enumerate() { v.insert((pos + k).min(v.len()), *b); } }
+            2 if !v.is_empty() => { let p = pos.min(v.len() - 1); v[p] = rng.u8(); }
+            3 => v.truncate(pos),
+            4 if !v.is_empty() => {
+                // duplicate a slice
+                let a = pos.min(v.len() - 1);
+                let b = (a + 1 + rng.below(12) as usize).min(v.len());
+                let s: Vec<u8> = v[a..b].to_vec();
+                for (k, x) in s.iter().enumerate() { v.insert(b + k, *x); }
+            }
+            5 if !v.is_empty() => { let p = pos.min(v.len() - 1); v[p] = v[p].to_ascii_uppercase(); }
+            6 => {
+                // token level: drop / duplicate / replace a whitespace-separated token
+                let text = String::from_utf8_lossy(&v).to_string();
+                let mut toks: Vec<&str> = text.split(' ').collect();
+                if toks.len() > 1 {
+                    let k = rng.below(toks.len() as u64) as usize;
+                    match rng.below(3) { 0 => { toks.remove(k); } 1 => { let x = toks[k]; toks.insert(k, x); } _ => { let o = toks[rng.below(toks.len() as u64) as usize]; toks[k] = o; } }
+                    v = toks.join(" ").into_bytes();
+                }
+            }
+            _ => { let s = SPECIAL[rng.below(SPECIAL.len() as u64) as usize]; for b in s.iter() { v.push(*b); } }
+        }
+    }
+    v
+}
+
+fn pathological(rng: &mut Rng, thorough: bool) -> Vec<(String, Vec<u8>)> {
+    let big = if thorough { 100_000 } else { 20_000 };
+    let mut v: Vec<(String, Vec<u8>)> = vec![
+        ("empty".into(), vec![]),
+        ("only-newlines".into(), b"\n\n\n".to_vec()),
+        ("no-final-newline".into(), b"start:\nmov ax, 1".to_vec()),
+        ("no-newline-at-all-error".into(), b"start: mov ax".to_vec()),
+        ("only-comment".into(), b"; nothing".to_vec()),
+        ("non-ascii".into(), "start:\nmov ax, 1 ; caf\u{e9} \u{20ac}\nd\u{e9}f: hlt\n".as_bytes().to_vec()),
+        ("non-ascii-in-string".into(), "x: db \"caf\u{e9}\"\nstart:\nhlt\n".as_bytes().to_vec()),
+        ("invalid-utf8".into(), b"start:\nmov ax, 1\n\xff\xfe\n".to_vec()),
+        ("nul-bytes".into(), b"start:\n\0\0mov ax, 1\n".to_vec()),
+        ("unbalanced-quote".into(), b"x: db \"abc\nstart:\nhlt\n".to_vec()),
+        ("unbalanced-bracket".into(), b"start:\nmov ax, word [bx\nhlt\n".to_vec()),
+        ("unbalanced-brace".into(), b"def f {\ninc ax\nstart:\nhlt\n".to_vec()),
+        ("unbalanced-macro".into(), b"macro m(a) -> inc a\nstart:\nm(ax)\n".to_vec()),
+        ("crlf".into(), b"start:\r\nmov ax, 1\r\nprint reg\r\n".to_vec()),
+        ("tabs-formfeeds".into(), b"start:\x0c\tmov\x0bax, 1\n".to_vec()),
+    ];
+    let digits: String = std::iter::repeat('9').take(big).collect();
+    v.push(("huge-decimal".into(), format!("start:\nmov ax, {}\n", digits).into_bytes()));
+    v.push(("huge-hex".into(), format!("start:\nmov ax, 0x{}\n", digits).into_bytes()));
+    v.push(("huge-binary".into(), format!("x: db 0b{}\nstart:\nhlt\n", std::iter::repeat('1').take(big).collect::<String>()).into_bytes()));
+    v.push(("huge-print-constant".into(), format!("start:\nprint mem {} -> 5\n", digits).into_bytes()));
+    v.push(("huge-string".into(), format!("x: db \"{}\"\nstart:\nhlt\n", std::iter::repeat('a').take(big).collect::<String>()).into_bytes()));
+    v.push(("very-long-label".into(), format!("start:\njmp {}\n", std::iter::repeat('L').take(big).collect::<String>()).into_bytes()));
+    let mut many = String::from("start:\n");
+    for i in 0..(big / 4) { many.push_str(if i % 2 == 0 { "inc ax\n" } else { "dec bx\n" }); }
+    v.push(("many-lines".into(), many.into_bytes()));
+    let mut manyl = String::from("start:\n");
+    for i in 0..(big / 20) { manyl.push_str(&format!("lab{}:\n", i)); }
+    v.push(("many-labels".into(), manyl.into_bytes()));
+    let mut comments = String::from("start:\n");
+    for _ in 0..(big / 10) { comments.push_str("; c\n"); }
+    comments.push_str("mov ax,\n");
+    v.push(("error-after-many-comment-lines".into(), comments.into_bytes()));
+    let depth = if thorough { 1000 } else { 64 };
+    let (chain, _) = crate::checks2::chain_source(depth);
+    v.push((format!("macro-chain-{}", depth), chain.into_bytes()));
+    let nested: String = std::iter::repeat("[").take(big / 10).collect();
+    v.push(("deep-brackets".into(), format!("start:\nmov ax, word {}\n", nested).into_bytes()));
+    let _ = rng;
+    v
+}
+
+pub fn gen_c15(rng: &mut Rng, sh: &mut Shards, out: &str, thorough: bool) {
+    let bin = bin_path();
+    let dir = format!("{}/runs", out);
+    std::fs::create_dir_all(&dir).unwrap();
+    // (source bytes, stdin bytes, interp, note)
+    let mut cases: Vec<(Vec<u8>, Vec<u8>, bool, String)> = Vec::new();
+    for (n, b) in pathological(rng, thorough) {
+        cases.push((b.clone(), b"n\nn\n".to_vec(), false, format!("family-{}", n)));
+        cases.push((b, b"".to_vec(), true, format!("family-{}-interpreted", n)));
+    }
+    let nbase = if thorough { 400 } else { 60 };
+    let per = if thorough { 25 } else { 12 };
+    for i in 0..nbase {
+        let mut g = Gen::new(rng);
+        let mut k = Knobs::control();
+        k.int3 = i % 4 == 0;
+        let p = g.program(&k);
+        let r = render(&p, &Layout::random(rng), rng, i);
+        for _ in 0..per {
+            let m = mutate_bytes(r.source.as_bytes(), rng);
+            let stdin = if rng.chance(1, 3) { mutate_bytes(b"n\nprint reg\nn\nq\n", rng) } else { b"n\nn\nn\nn\nn\nn\nn\nn\n".to_vec() };
+            cases.push((m, stdin, rng.chance(1, 5), "mutant".into()));
+        }
+    }
+    let threads = 16;
+    let results: Vec<Vec<serde_json::Value>> = {
+        let chunk = (cases.len() + threads - 1) / threads;
+        let mut all: Vec<Vec<Vec<serde_json::Value>>> = Vec::new();
+        std::thread::scope(|s| {
+            let mut hs = Vec::new();
+            for (ci, part) in cases.chunks(chunk.max(1)).enumerate() {
+                let (bin, dir) = (&bin, &dir);
+                hs.push(s.spawn(move || {
+                    part.iter().enumerate().map(|(k, (src, sin, interp, note))| {
+                        let n = ci * chunk.max(1) + k;
+                        let shown: String = String::from_utf8_lossy(&src[..src.len().min(400)]).to_string();
+                        let rendered = Rendered { source: String::new(), json: serde_json::json!({"ev":"program","n":n,"raw":true,"note":note,"source_head":shown,"source_len":src.len()}) };
+                        run_cli_bytes(bin, dir, n, &rendered, src, sin, *interp, 20000)
+                    }).collect::<Vec<_>>()
+                }));
+            }
+            for h in hs { all.push(h.join().unwrap()); }
+        });
+        all.into_iter().flatten().collect()
+    };
+    for (evs, c) in results.iter().zip(cases.iter()) {
+        sh.count(&format!("cli:{}", if c.3.starts_with("family") { "family" } else { "mutant" }), 1);
+        // only the frame of the run matters here: keep the program, the diagnostics, the exit and the stdout events
+        let slim: Vec<serde_json::Value> = evs.iter().filter(|e| matches!(e["ev"].as_str(), Some("program") | Some("diag") | Some("exit") | Some("stdout"))).map(|e| {
+            if e["ev"] == "stdout" { let mut x = e.clone(); let b: Vec<serde_json::Value> = x["bytes"].as_array().unwrap().iter().take(200).cloned().collect(); x["bytes"] = serde_json::json!(b); x } else { e.clone() }
+        }).collect();
+        sh.unit(&slim);
+    }
+    let _ = std::fs::remove_dir_all(&dir);
+}
